@@ -8,6 +8,10 @@
 //! before it; result vs. last program receipt; receipts_root == an independent RFC-6962 MTH (sha2) of the encoded
 //! receipts; count <= 65,535; on revert/panic variable outputs zero, change = initial (+refund), and the client's
 //! contract storage (state, balances, code) is unchanged; on success it equals the VM's final state.
+//! Transactions also run as SEQUENCES on one reused `MemoryClient` (a run that aborts inside a nested call by revert,
+//! panic or out of gas, then top-level RET / RETD / RVRT programs; success-then-anything; random follow-ups): every
+//! transaction of a sequence gets the same oracle, must produce byte-identical receipts on a fresh client started from
+//! the same storage, and a top-level Return receipt must mean success.
 #[path = "../gen/vmgen.rs"]
 mod vmgen;
 #[path = "../gen/gas_gen.rs"]
@@ -60,31 +64,64 @@ fn storage_digest(st: &MemoryStorage, scn: &Scn, watch: &[AssetId]) -> String {
     s
 }
 
+type Client = MemoryClient<MemoryInstance>;
+
+fn new_client(scn: &Scn, storage: MemoryStorage) -> Client {
+    MemoryClient::new(MemoryInstance::new(), storage, InterpreterParams::new(scn.gas_price, &scn.params))
+}
+
+/// one transaction on a fresh client
 fn run_case(ctx: &mut Ctx, scn: &Scn, tag: &str, with_root: bool) {
     let built = match build(scn) { Ok(b) => b, Err(e) => { ctx.count(&format!("invalid-tx.{}", e.split(|c: char| !c.is_alphanumeric()).filter(|w| !w.is_empty()).take(2).collect::<Vec<_>>().join("-"))); return; } };
+    let mut client = new_client(scn, built.storage.clone());
+    run_on(ctx, &mut client, scn, built, tag, with_root, true);
+}
+
+/// transactions one after the other on ONE client (the first on a fresh one); all must share the consensus parameters
+fn run_sequence(ctx: &mut Ctx, scns: &[Scn], tag: &str) {
+    let mut client: Option<Client> = None;
+    for (i, scn) in scns.iter().enumerate() {
+        let built = match build(scn) { Ok(b) => b, Err(_) => { ctx.count("invalid-tx.in-sequence"); continue; } };
+        let fresh = client.is_none();
+        let c = client.get_or_insert_with(|| new_client(scn, built.storage.clone()));
+        run_on(ctx, c, scn, built, &format!("{tag} tx={i}/{}", scns.len()), true, fresh);
+        if !fresh { ctx.count("seq.tx-on-reused-client"); }
+    }
+    ctx.count("seq.sequences");
+}
+
+/// `fresh`: the client has not executed a transaction yet; otherwise it is reused and the same transaction is also run on a
+/// fresh client over a copy of the reused client's storage, to be compared
+fn run_on(ctx: &mut Ctx, client: &mut Client, scn: &Scn, built: Built, tag: &str, with_root: bool, fresh: bool) {
     let base = *scn.params.base_asset_id();
     let mut watch: Vec<AssetId> = (0..4).map(|i| asset(i, &base)).collect();
     for c in 0..3 { for s in 0..2 { watch.push(contract_id(c).asset_id(&sub_id(s))); } }
-    let before = storage_digest(&built.storage, scn, &watch);
+    let start: MemoryStorage = { let st: &MemoryStorage = (*client).as_ref(); st.clone() };
+    let before = storage_digest(&start, scn, &watch);
     // reference run on a bare interpreter (no client): what the VM itself left in its storage
-    let mut vm = new_vm(scn, built.storage.clone());
+    let mut vm = new_vm(scn, start.clone());
     let vm_after = match ctx.guard(|| vm.transact(built.ready).map(|_| ()).map_err(|e| format!("{e:?}"))) {
         Ok(Ok(())) => storage_digest(vm.as_ref(), scn, &watch),
         Ok(Err(e)) => { ctx.oracle_fail(&format!("vm-error-{}", e.split(|c: char| !c.is_alphanumeric()).next().unwrap_or("x")), tag, &e.chars().take(160).collect::<String>()); return; }
         Err(m) => { ctx.oracle_fail("panic-vm-run", tag, &m); return; }
     };
     let initial = vm.initial_balances().clone();
-    let mut client: MemoryClient<MemoryInstance> = MemoryClient::new(MemoryInstance::new(), built.storage.clone(), InterpreterParams::new(scn.gas_price, &scn.params));
     let checked = built.checked_again;
+    let fresh_receipts: Option<Vec<Receipt>> = if fresh { None } else {
+        let mut fc = new_client(scn, start.clone());
+        let ch = checked.clone();
+        ctx.guard(|| fc.transact(ch).to_vec()).ok()
+    };
     let receipts: Vec<Receipt> = match ctx.guard(|| client.transact(checked).to_vec()) { Ok(r) => r, Err(m) => { ctx.oracle_fail("panic-client-transact", tag, &m); return; } };
     let Some(st) = client.state_transition() else { ctx.oracle_fail("client-no-state-transition", tag, ""); return; };
     let tx: Script = st.tx().clone();
     let should_revert = st.should_revert();
-    let after = storage_digest(client.as_ref(), scn, &watch);
+    let after = storage_digest((*client).as_ref(), scn, &watch);
     let n = receipts.len();
     let kinds: Vec<&str> = receipts.iter().map(kind).collect();
     let encs: Vec<Vec<u8>> = receipts.iter().map(|r| r.to_bytes()).collect();
     // ---- events for the model ----
+    if fresh { ctx.emit("client", "."); }
     ctx.emit("begin", ".");
     let sr_pos = kinds.iter().position(|k| *k == "scriptResult");
     let has_panic = n >= 2 && kinds[n - 2] == "panic";
@@ -127,6 +164,13 @@ fn run_case(ctx: &mut Ctx, scn: &Scn, tag: &str, with_root: bool) {
     for k in &kinds[..body_end] { match *k { "call" => depth += 1, "ret" | "retd" => { if depth == 0 { top_ret = true; } else { depth -= 1; } } "revert" => reverted = true, _ => {} } }
     let exp = if has_panic { 2 } else if reverted { 1 } else if top_ret { 0 } else { 98 };
     if exp != result { ctx.oracle_fail("result-kind", &inp, &format!("expected {exp} got {result}")); }
+    // success iff the top-level program returned: a Return receipt at call depth 0 ends the script with success
+    if top_ret && (result != 0 || !(kinds[body_end - 1] == "ret" || kinds[body_end - 1] == "retd") || has_panic) { ctx.oracle_fail("top-level-return-not-success", &inp, &format!("a top-level Return/ReturnData receipt is followed by more execution; result {result}")); }
+    if let Some(fr) = &fresh_receipts {
+        let fe: Vec<Vec<u8>> = fr.iter().map(|r| r.to_bytes()).collect();
+        if fe != encs { ctx.oracle_fail("reused-client-differs-from-fresh", &inp, &format!("fresh client: n={} kinds={}", fr.len(), rle(&fr.iter().map(kind).collect::<Vec<_>>()))); }
+        ctx.count("oracle.reused-vs-fresh-compared");
+    }
     if top_ret && body_end > 0 && !(kinds[body_end - 1] == "ret" || kinds[body_end - 1] == "retd") && !has_panic && !reverted { ctx.oracle_fail("result-kind", &inp, "top-level return is not the last program receipt"); }
     if reverted && kinds[..body_end].iter().position(|k| *k == "revert") != Some(body_end - 1) { ctx.oracle_fail("result-kind", &inp, "revert receipt is not the last program receipt"); }
     let my_root = mth(&encs);
@@ -179,7 +223,7 @@ fn stress(rng: &mut crate::ctx::Rng, n_logs: u32, ending: u64, in_call: bool) ->
         let mut s = vec![op::movi(RP, 0), op::add(RP, RP, RegId::IS), op::addi(0x19, RP, OFF_CALL), op::addi(0x1a, RP, OFF_ASSET), op::not(0x1c, RegId::ZERO),
             op::call(0x19, RegId::ZERO, 0x1a, 0x1c), op::log(RegId::ONE, RegId::ONE, RegId::ZERO, RegId::ZERO), op::ret(RegId::ONE)];
         s[0] = op::movi(RP, 0);
-        scn.contracts = vec![Ctr { id: contract_id(0), code: finish(c), balances: vec![], as_input: true }];
+        scn.contracts = vec![Ctr { id: contract_id(0), code: finish(c), balances: vec![], as_input: true, tail: 0 }];
         scn.script = finish(s);
     } else {
         let mut s = body.clone(); end(&mut s);
@@ -188,6 +232,60 @@ fn stress(rng: &mut crate::ctx::Rng, n_logs: u32, ending: u64, in_call: bool) ->
     }
     scn.gas_limit = 2_000_000; scn.coin_outs.clear();
     scn
+}
+
+fn assemble(body: Vec<fuel_asm::Instruction>, base: &AssetId) -> Vec<u8> {
+    let mut code = vec![op::movi(RP, 0), op::add(RP, RP, RegId::IS)];
+    code.extend(body);
+    code[0] = op::movi(RP, (code.len() * 4) as u32);
+    let mut b: Vec<u8> = code.iter().flat_map(|i| i.to_bytes()).collect();
+    b.extend_from_slice(&pool(base));
+    b
+}
+
+/// regression corpus for reused clients: a first transaction that ends INSIDE a (nested) contract call - the callee
+/// reverts, panics, or runs out of gas - leaves the interpreter's call frames behind; the following transactions on the
+/// same client are top-level RET / RETD / RVRT / LOG+RET programs (and the aborting one again), which must run exactly as
+/// on a fresh client; also success-then-abort-then-success.
+fn sequence_corpus(ctx: &mut Ctx) {
+    let mut r = ctx.rng.clone();
+    let mut scn0 = gen_scenario(&mut r, Focus::Outcome, GasCostsValues::unit());
+    let base = *scn0.params.base_asset_id();
+    scn0.gas_price = 0; scn0.coin_outs.clear(); scn0.gas_limit = 20_000;
+    let call = |c: u16, gas: u32| vec![op::addi(0x19, RP, OFF_CALL + 48 * c), op::addi(0x1a, RP, OFF_ASSET), op::movi(0x1c, gas), op::call(0x19, RegId::ZERO, 0x1a, 0x1c)];
+    // callee behaviours
+    let callees: Vec<(&str, Vec<fuel_asm::Instruction>)> = vec![
+        ("revert", vec![op::log(RegId::ONE, RegId::ZERO, RegId::ZERO, RegId::ZERO), op::rvrt(RegId::ONE)]),
+        ("panic", vec![op::div(0x10, RegId::ONE, RegId::ZERO), op::ret(RegId::ONE)]),
+        ("out-of-gas", vec![op::noop(), op::jmpb(RegId::ZERO, 0)]),
+        ("nested-revert", { let mut v = call(1, 5000); v.push(op::ret(RegId::ONE)); v }),
+        ("nested-panic-after-return", { let mut v = call(2, 5000); v.push(op::div(0x10, RegId::ONE, RegId::ZERO)); v }),
+    ];
+    let followers: Vec<(&str, Vec<fuel_asm::Instruction>)> = vec![
+        ("ret", vec![op::ret(RegId::ONE)]),
+        ("retd", vec![op::movi(0x11, 8), op::retd(RP, 0x11)]),
+        ("rvrt", vec![op::rvrt(RegId::ONE)]),
+        ("log-ret", vec![op::log(RegId::ONE, RegId::ONE, RegId::ZERO, RegId::ZERO), op::ret(RegId::ZERO)]),
+        ("call-ok-ret", { let mut v = call(2, 5000); v.push(op::ret(RegId::ONE)); v }),
+    ];
+    for (cn, callee) in &callees {
+        // contract 0 = the callee under test, contract 1 = reverts, contract 2 = returns
+        let mk = |code: Vec<fuel_asm::Instruction>, i: usize| Ctr { id: contract_id(i), code: assemble(code, &base), balances: vec![], as_input: true, tail: 0 };
+        scn0.contracts = vec![mk(callee.clone(), 0), mk(vec![op::rvrt(RegId::ONE)], 1), mk(vec![op::ret(RegId::ONE)], 2)];
+        let mut abort = scn0.clone();
+        abort.script = assemble({ let mut v = call(0, 10_000); v.push(op::log(RegId::ONE, RegId::ONE, RegId::ONE, RegId::ONE)); v.push(op::ret(RegId::ONE)); v }, &base);
+        for (fname, f) in &followers {
+            let mut next = scn0.clone();
+            next.script = assemble(f.clone(), &base);
+            run_sequence(ctx, &[abort.clone(), next.clone()], &format!("seq abort-in-call={cn} then {fname}"));
+            // success first, then the abort, then the same follower twice
+            run_sequence(ctx, &[next.clone(), abort.clone(), next.clone(), next.clone()], &format!("seq {fname} then abort-in-call={cn} then {fname} x2"));
+        }
+        // two aborts in a row (frames would pile up), then every follower
+        let mut all = vec![abort.clone(), abort.clone()];
+        for (_, f) in &followers { let mut n = scn0.clone(); n.script = assemble(f.clone(), &base); all.push(n); }
+        run_sequence(ctx, &all, &format!("seq abort-in-call={cn} x2 then all"));
+    }
 }
 
 pub fn run(ctx: &mut Ctx) {
@@ -202,11 +300,24 @@ pub fn run(ctx: &mut Ctx) {
         run_case(ctx, &scn, &format!("stress n_logs={n_logs} ending={ending} in_call={in_call}"), k < rooted);
         k += 1;
     }
+    sequence_corpus(ctx);
     let n = ctx.n(400, 6000);
     for case in 0..n {
         let costs = if ctx.rng.chance(1, 3) { GasCostsValues::unit() } else { GasCostsValues::default() };
-        let mut scn = gen_scenario(&mut ctx.rng, Focus::Outcome, costs);
+        let mut scn = gen_scenario(&mut ctx.rng, Focus::Outcome, costs.clone());
         match ctx.rng.below(4) { 0 => {} 1 => scn.gas_limit = ctx.rng.range(0, 3000), _ => scn.gas_limit = scn.gas_limit.max(ctx.rng.range(100_000, 2_000_000)) }
-        run_case(ctx, &scn, &format!("case={case}"), true);
+        if ctx.rng.chance(1, 2) { run_case(ctx, &scn, &format!("case={case}"), true); continue; }
+        // a sequence on one reused client: the generated transaction, then 1-3 more generated scripts over the same
+        // contracts and parameters (so whatever the earlier ones left in the interpreter - frames after an abort inside a
+        // call, receipts, memory - is in place when the next one starts)
+        let mut seq = vec![scn.clone()];
+        for _ in 0..ctx.rng.range(1, 3) {
+            let mut nx = gen_scenario(&mut ctx.rng, Focus::Outcome, costs.clone());
+            nx.params = scn.params.clone(); nx.gas_price = scn.gas_price; nx.contracts = scn.contracts.clone();
+            match ctx.rng.below(4) { 0 => {} 1 => nx.gas_limit = ctx.rng.range(0, 3000), _ => nx.gas_limit = nx.gas_limit.max(ctx.rng.range(100_000, 2_000_000)) }
+            if ctx.rng.chance(1, 3) { let base = *nx.params.base_asset_id(); nx.script = assemble(match ctx.rng.below(3) { 0 => vec![op::ret(RegId::ONE)], 1 => vec![op::movi(0x11, 8), op::retd(RP, 0x11)], _ => vec![op::rvrt(RegId::ONE)] }, &base); }
+            seq.push(nx);
+        }
+        run_sequence(ctx, &seq, &format!("case={case}"));
     }
 }
